@@ -6,7 +6,8 @@
     or real I/O error); a read may return anything (what the file system holds at that moment, a
     short read, an error).  A crash is "no further step" - every reachable state is a possible
     post-crash state - plus [ss_cut]: a worker is killed in the middle of a write, of which only a
-    prefix reaches the file; that worker's program never continues (the other workers may still
+    prefix reaches the file ([ss_mkdir_partial]: a [create_dir_all] that fails - e.g. on a component
+    that is too long - may already have created some of the missing ancestors); that worker's program never continues (the other workers may still
     perform a few operations before the process is gone, as observed in killed multi-threaded runs). *)
 From TB Require Import Base TorrentModel PathModel FsModel SolverModel RunModel.
 Local Open Scope N_scope.
@@ -32,6 +33,9 @@ Inductive sstep : sys -> sys -> Prop :=
 | ss_cut f pool i p off d k n f' : nth_error pool i = Some (Mut (WriteAt p off d) k) ->
     apply_op f (WriteAt p off (firstn n d)) = (f', true) ->
     sstep {| s_fs := f; s_pool := pool |} {| s_fs := f'; s_pool := set_nth pool i (Ret Fault) |}
+| ss_mkdir_partial f pool i p k made f' : nth_error pool i = Some (Mut (MkdirAll p) k) -> path_prefix made p = true ->
+    apply_op f (MkdirAll made) = (f', true) ->
+    sstep {| s_fs := f; s_pool := pool |} {| s_fs := f'; s_pool := set_nth pool i (k false) |}
 | ss_lock f pool i id k : nth_error pool i = Some (Lock id k) ->
     sstep {| s_fs := f; s_pool := pool |} {| s_fs := f; s_pool := set_nth pool i k |}
 | ss_unlock f pool i id k : nth_error pool i = Some (Unlock id k) ->
@@ -62,7 +66,7 @@ Inductive fstep : sys -> sys -> Prop :=
 
 (** Executable single-step function used by the trace validator: performs event [ev] of program
     number [i] on the shared state, or refuses. *)
-Inductive sev := SRead (r : option (list N)) | SMutOk | SMutFail | SCut (n : nat) | SSkip.
+Inductive sev := SRead (r : option (list N)) | SMutOk | SMutFail | SCut (n : nat) | SSkip | SMkPartial (made : path).
 
 Definition sys_do (s : sys) (i : nat) (ev : sev) : option sys :=
   match nth_error (s_pool s) i with
@@ -83,6 +87,17 @@ Definition sys_do (s : sys) (i : nat) (ev : sev) : option sys :=
                       end
                   | _ => None
                   end
+      | SMkPartial made =>
+          match o with
+          | MkdirAll p =>
+              if path_prefix made p then
+                match apply_op (s_fs s) (MkdirAll made) with
+                | (f', true) => Some {| s_fs := f'; s_pool := set_nth (s_pool s) i (k false) |}
+                | _ => None
+                end
+              else None
+          | _ => None
+          end
       | _ => None
       end
   | Some (Lock _ k) | Some (Unlock _ k) =>
@@ -126,6 +141,8 @@ Definition sys_event (s : sys) (i : nat) (e : event) (last : bool) : option sys 
                then match o' with WriteAt _ _ d' => sys_do s i (SCut (length d')) | _ => None end
                else None
       | EMut o' false => if op_same_target o o' then sys_do s i SMutFail else None
+      | EMkPartial p' made =>
+          match o with MkdirAll p => if path_eqb p p' then sys_do s i (SMkPartial made) else None | _ => None end
       | _ => None
       end
   | _ => None
